@@ -1,6 +1,7 @@
 package props
 
 import (
+	"encoding/binary"
 	"fmt"
 	"testing"
 	"time"
@@ -27,7 +28,7 @@ func init() { register(&Prop{ID: "C02", Run: runC02}) }
 
 var c02Faults = []string{"none", "cut_reply_at", "cut_request_at", "half_close", "local_close", "remote_close", "remote_peer_close", "local_peer_close", "cut_now", "write_err"}
 
-var c02Hostile = []string{"ok", "ok", "dup_reply", "wrong_seq", "undecodable", "unknown_codec", "codec0_body", "bad_mtype", "truncated", "garbage", "silent_close", "err_status", "reply_twice_then_ok"}
+var c02Hostile = []string{"ok", "ok", "dup_reply", "wrong_seq", "undecodable", "unknown_codec", "codec0_body", "bad_mtype", "truncated", "garbage", "silent_close", "err_status", "reply_twice_then_ok", "short_frame"}
 
 func runC02(t *testing.T, seed uint64, m *Mask) *Report {
 	sc, nc, r := swarm(seed, m)
@@ -337,6 +338,38 @@ func c02RawPeer(e *world.Env, raw *world.RawPeer, proto string, ops []*world.Op,
 			_ = full
 			raw.Conn.Peer.CutInboundAt(int64(n) + int64(e.Gen.Intn(len(full)+1)))
 			return
+		case "short_frame":
+			// a complete frame whose length field is consistent but whose content stops early, and then nothing
+			// more for this call: the peer stays connected
+			if proto != "raw" && proto != "json" {
+				raw.Send(erpc.TypeReply, msg.Seq, "", msg.Codec, good, nil, meta, nil)
+				break
+			}
+			ta, _ := e.Net.Pair()
+			tmp := world.NewRawPeer(ta, world.ProtoFunc(proto))
+			tmp.Send(erpc.TypeReply, msg.Seq, "", msg.Codec, good, nil, meta, nil)
+			f := append([]byte(nil), ta.Sent()...)
+			ta.Close()
+			// the cut falls in the tail that holds the body (both layouts put it last), so type and sequence
+			// number are intact: this IS the reply to that call, malformed.  For the raw layout the earliest cut
+			// is right after the metadata section: no body codec byte, no body
+			tail := len(world.Encode(msg.Codec, good)) + 1
+			if tail >= len(f)-8 {
+				raw.Send(erpc.TypeReply, msg.Seq, "", msg.Codec, good, nil, meta, nil)
+				break
+			}
+			cut := len(f) - tail + e.Gen.Intn(tail)
+			if proto == "raw" && e.Gen.Chance(0.4) {
+				cut = len(f) - tail
+			}
+			f = f[:cut]
+			if proto == "raw" {
+				binary.BigEndian.PutUint32(f, uint32(len(f)))
+			} else {
+				binary.BigEndian.PutUint32(f, uint32(len(f)-4))
+			}
+			raw.Conn.Write(f)
+			// stay connected; nothing more is said about this call
 		case "garbage":
 			g := make([]byte, 1+e.Gen.Intn(40))
 			e.Gen.Bytes(g)
